@@ -17,16 +17,18 @@ use tokio::sync::oneshot;
 use tracing::{debug, error, warn};
 use uuid::Uuid;
 
-use crate::bucket::event_index::ClosedEventIndex;
+use crate::bucket::event_index::{ClosedEventIndex, OpenEventIndex};
 use crate::bucket::iter::{PartitionIter, PartitionIterConfig, StreamIter, StreamIterConfig};
-use crate::bucket::partition_index::{ClosedPartitionIndex, PartitionIndexRecord};
+use crate::bucket::partition_index::{
+    ClosedPartitionIndex, OpenPartitionIndex, PartitionIndexRecord,
+};
 use crate::bucket::segment::{BucketSegmentReader, CommittedEvents, EventRecord};
-use crate::bucket::stream_index::{ClosedStreamIndex, StreamIndexRecord};
-use crate::bucket::{BucketId, BucketSegmentId, PartitionId, SegmentId};
+use crate::bucket::stream_index::{ClosedStreamIndex, OpenStreamIndex, StreamIndexRecord};
+use crate::bucket::{BucketId, BucketSegmentId, PartitionId, SegmentId, SegmentKind};
 use crate::cache::BLOCK_SIZE;
 use crate::error::{
-    DatabaseError, EventValidationError, MetadataError, PartitionIndexError, ReadError,
-    StreamIndexError, ThreadPoolError, WriteError,
+    DatabaseError, EventIndexError, EventValidationError, MetadataError, PartitionIndexError,
+    ReadError, StreamIndexError, ThreadPoolError, WriteError,
 };
 use crate::id::{set_uuid_flag, uuid_to_partition_hash, validate_event_id};
 use crate::reader_thread_pool::ReaderThreadPool;
@@ -357,6 +359,15 @@ impl Database {
     }
 }
 
+/// Scanning a segment that is not filled to its last byte ends at the truncation marker (zeroes)
+/// behind its last record.
+fn is_end_of_data(err: &ReadError) -> bool {
+    matches!(
+        err,
+        ReadError::Reader(seglog::read::ReadError::TruncationMarker { .. })
+    )
+}
+
 const META_FILENAME: &str = "meta.json";
 
 #[derive(Debug, Clone, Serialize, Deserialize)]
@@ -666,26 +677,66 @@ impl DatabaseBuilder {
                 continue;
             };
 
-            let reader = BucketSegmentReader::open(events, None)?;
+            let mut reader = BucketSegmentReader::open(events, None)?;
 
-            let event_index = event_index
-                .map(|path| ClosedEventIndex::open(bucket_segment_id, path))
-                .transpose()?;
-            let partition_index = partition_index
-                .map(|path| ClosedPartitionIndex::open(bucket_segment_id, path))
-                .transpose()?;
-            let stream_index = stream_index
-                .map(|path| {
-                    ClosedStreamIndex::open(bucket_segment_id, path, self.segment_size_bytes)
-                })
-                .transpose()?;
+            // The index files of a sealed segment are written in the background after the
+            // rollover, without fsync: a crash can leave them missing, empty or cut short. They
+            // only hold what the segment's events say, so rebuild them from the events instead of
+            // failing to open or (for a missing file) silently not finding the segment's events.
+            let path = event_index
+                .unwrap_or_else(|| SegmentKind::EventIndex.get_path(&dir, bucket_segment_id));
+            let event_index = match ClosedEventIndex::open(bucket_segment_id, &path) {
+                Ok(index) => index,
+                Err(err) => {
+                    warn!("rebuilding the event index of {bucket_segment_id}: {err}");
+                    let mut index = OpenEventIndex::open(bucket_segment_id, &path)?;
+                    index.hydrate(&mut reader).or_else(|err| match err {
+                        EventIndexError::Read(err) if is_end_of_data(&err) => Ok(()),
+                        err => Err(err),
+                    })?;
+                    index.flush()?;
+                    ClosedEventIndex::open(bucket_segment_id, &path)?
+                }
+            };
+            let path = partition_index
+                .unwrap_or_else(|| SegmentKind::PartitionIndex.get_path(&dir, bucket_segment_id));
+            let partition_index = match ClosedPartitionIndex::open(bucket_segment_id, &path) {
+                Ok(index) => index,
+                Err(err) => {
+                    warn!("rebuilding the partition index of {bucket_segment_id}: {err}");
+                    let mut index = OpenPartitionIndex::open(bucket_segment_id, &path)?;
+                    index.hydrate(&mut reader).or_else(|err| match err {
+                        PartitionIndexError::Read(err) if is_end_of_data(&err) => Ok(()),
+                        err => Err(err),
+                    })?;
+                    index.flush()?;
+                    ClosedPartitionIndex::open(bucket_segment_id, &path)?
+                }
+            };
+            let path = stream_index
+                .unwrap_or_else(|| SegmentKind::StreamIndex.get_path(&dir, bucket_segment_id));
+            let segment_size = self.segment_size_bytes;
+            let stream_index = match ClosedStreamIndex::open(bucket_segment_id, &path, segment_size)
+            {
+                Ok(index) => index,
+                Err(err) => {
+                    warn!("rebuilding the stream index of {bucket_segment_id}: {err}");
+                    let mut index = OpenStreamIndex::open(bucket_segment_id, &path, segment_size)?;
+                    index.hydrate(&mut reader).or_else(|err| match err {
+                        StreamIndexError::Read(err) if is_end_of_data(&err) => Ok(()),
+                        err => Err(err),
+                    })?;
+                    index.flush()?;
+                    ClosedStreamIndex::open(bucket_segment_id, &path, segment_size)?
+                }
+            };
 
             reader_pool.add_bucket_segment(
                 bucket_segment_id,
                 &reader,
-                event_index.as_ref(),
-                partition_index.as_ref(),
-                stream_index.as_ref(),
+                Some(&event_index),
+                Some(&partition_index),
+                Some(&stream_index),
             );
         }
 
